@@ -63,6 +63,7 @@ def tasks(tier):
         for a in range(len(RED)):
             ts.append(("box3r", a))
     ts.append(("product",))
+    ts.append(("masked",))
     ts.append(("long",))
     ts.append(("reject",))
     return ts
@@ -84,12 +85,27 @@ def check_case(case):
         kw["bbox"] = bv
     if case.get("range_max") is not None:
         kw["range_max"] = case["range_max"]
+    if "shapes" in case:
+        import numpy as np
+
+        sa, sb = case["shapes"]
+        lo = np.zeros(int(np.prod(sa)) if sa else 1).reshape(sa)
+        la = np.zeros(int(np.prod(sb)) if sb else 1).reshape(sb)
+        out = alpha.call(qartod.location_test, lo, la, **kw)
+        vs, obs = judge_flags(PROP, "location_test", out, "reject", 0, extra_sig="lon/lat-shape-mismatch(equal-size)")
+        return vs, True, obs, 0
     if "lens" in case:
         a, b = case["lens"]
         out = alpha.call(qartod.location_test, alpha.nd([0.0] * a), alpha.nd([0.0] * b), **kw)
         vs, obs = judge_flags(PROP, "location_test", out, "reject", a, extra_sig="lon/lat-length-mismatch")
         return vs, True, obs, 0
-    out = alpha.call(qartod.location_test, alpha.nd(lon), alpha.nd(lat), **kw)
+    lon_in, lat_in = alpha.nd(lon), alpha.nd(lat)
+    if case.get("carrier") == "ma":  # masked coordinates hiding finite in-box values
+        import numpy as np
+
+        lon_in = np.ma.MaskedArray(np.array([1.0 if v == alpha.NAN else v for v in lon]), mask=[v == alpha.NAN for v in lon])
+        lat_in = np.ma.MaskedArray(np.array([1.0 if v == alpha.NAN else v for v in lat]), mask=[v == alpha.NAN for v in lat])
+    out = alpha.call(qartod.location_test, lon_in, lat_in, **kw)
     if case.get("malformed"):
         vs, obs = judge_flags(PROP, "location_test", out, "reject", len(track), extra_sig=f"malformed-bbox={bk}:{bv!r}")
         return vs, True, obs, 0
@@ -126,6 +142,17 @@ def run_task(task, acc):
                     for b in BOXES:
                         for r in rc:
                             yield dict(track=track, bbox=list(b), range_max=r)
+        run_cases(acc, gen(), check_case)
+    elif kind == "masked":
+        def gen():
+            for k in (1, 2, 3):
+                for tr in itertools.product(RED, repeat=k):
+                    if not any(alpha.NAN in p for p in tr):
+                        continue
+                    track = [list(p) for p in tr]
+                    for b in BOXES[:2]:
+                        for r in (None, 100_000.0):
+                            yield dict(track=track, bbox=list(b), range_max=r, carrier="ma")
         run_cases(acc, gen(), check_case)
     elif kind == "box3r":
         a = task[1]
@@ -175,4 +202,8 @@ def run_task(task, acc):
                     if a != b:
                         for bx in BOXES[:2]:
                             yield dict(track=[], lens=[a, b], bbox=list(bx))
+            for sa, sb in (([2, 3], [3, 2]), ([2, 3], [6]), ([6], [3, 2]), ([1, 2], [2]), ([2], [2, 1]), ([1, 4], [2, 2])):
+                for bx in BOXES[:2]:
+                    for r in (None, 1000.0):
+                        yield dict(track=[], shapes=[sa, sb], bbox=list(bx), range_max=r)
         run_cases(acc, gen(), check_case)
